@@ -129,6 +129,11 @@ def main():
         "qgmres_none": lambda a: solver.QGMRESSolver(tol=1e-8).solve(qa(a["A"]), qa(a["b"])),
         "rsp_qr": lambda a: solver.RandomizedSketchProjectPseudoinverse(block_size=2, max_iter=15, tol=1e-8).compute(qa(a["A"])),
         "rsp_spd": lambda a: solver.RandomizedSketchProjectPseudoinverse(block_size=2, max_iter=15, tol=1e-8, column_solver="spd").compute(qa(a["A"])),
+        # explicit constructor seeds: the two interpreters run with different hash salts (python -I ignores PYTHONHASHSEED),
+        # a seeded run must be the same function of (seed, arguments) in every process
+        "rsp_seeded": lambda a: solver.RandomizedSketchProjectPseudoinverse(block_size=2, max_iter=15, tol=1e-8, seed=a["seed"] % 1000).compute(qa(a["A"])),
+        "hybrid_seeded": lambda a: solver.HybridRSPNewtonSchulz(r=2, p=2, T=2, max_iter=8, tol=1e-8, seed=a["seed"] % 1000).compute(qa(a["A"])),
+        "cgne_seeded": lambda a: solver.CGNEQSolver(max_iter=8, tol=1e-8, preconditioner_rank=1, seed=a["seed"] % 1000).compute(qa(a["A"])),
         "hybrid_qr": lambda a: solver.HybridRSPNewtonSchulz(r=2, p=2, T=2, max_iter=8, tol=1e-8).compute(qa(a["A"])),
         "ns": lambda a: solver.NewtonSchulzPseudoinverse(max_iter=6, tol=0.0).compute(qa(a["A"])),
         "lu": lambda a: decomp.quaternion_lu(qa(a["A"]), return_p=True),
